@@ -184,7 +184,9 @@ func (a *ASpec) doc(patternsAsText bool) map[string]interface{} {
 }
 
 // YAML renders the spec as a YAML document (block style, JSON scalars and
-// flow collections for patterns; sources as literal blocks).
+// flow collections for patterns; sources as literal blocks).  Keys are the
+// ones the hosts' YAML loaders use for core.Spec (lower-cased field names, as
+// in specs/*.yaml: "patternsyntax", "actionerrorbranches", ...).
 func (a *ASpec) YAML(patternsAsText bool) string {
 	var sb strings.Builder
 	w := func(ind int, format string, args ...interface{}) {
@@ -201,19 +203,19 @@ func (a *ASpec) YAML(patternsAsText bool) string {
 	}
 	w(0, "name: %s", js(a.Name))
 	if a.ErrorNode != "" {
-		w(0, "errorNode: %s", js(a.ErrorNode))
+		w(0, "errornode: %s", js(a.ErrorNode))
 	}
 	if a.NoAutoErrorNode {
-		w(0, "noErrorNode: true")
+		w(0, "noautoerrornode: true")
 	}
 	if a.ActionErrorBranches {
-		w(0, "actionErrorBranches: true")
+		w(0, "actionerrorbranches: true")
 	}
 	if a.ActionErrorNode != "" {
-		w(0, "actionErrorNode: %s", js(a.ActionErrorNode))
+		w(0, "actionerrornode: %s", js(a.ActionErrorNode))
 	}
 	if patternsAsText {
-		w(0, "patternSyntax: json")
+		w(0, "patternsyntax: json")
 	}
 	if len(a.Nodes) == 0 {
 		w(0, "nodes: {}")
